@@ -156,7 +156,7 @@ Theorem leaf_relToIdx : forall rel l, GoSem.in_int64 rel -> 0 <= l <= two53 ->
   LeafGen.relToIdx_gen rel l = (if 0 <=? rel then Z.min rel l else Z.max (l + rel) 0) /\
   0 <= LeafGen.relToIdx_gen rel l <= l.
 Proof. exact LeafTie.relToIdx_gen_spec. Qed.
-Theorem leaf_toIdx : forall v,
+Theorem leaf_toIdx : forall v, GoSem.in_int64 v ->
   LeafGen.toIdx_gen v = (if (0 <=? v) && (v <? 4294967295) then v else 4294967295) /\
   0 <= LeafGen.toIdx_gen v <= 4294967295.
 Proof. exact LeafTie.toIdx_gen_spec. Qed.
